@@ -56,8 +56,16 @@ def fix_deprecated(workpath: Path, fix: bool, cleanup: bool):
 
     if cleanup and fix:
         for job_path in jobspath.glob("*/*/params.json"):
-            # If link, skip
+            # Remove the links (the folders are moved)...
             if job_path.parent.is_symlink():
+                # ... but not those of a folder that cannot be loaded (e.g. its
+                # class does not exist anymore): it is not going to be moved,
+                # and the link might be the only way to reach it
+                if load_job(job_path)[1] is None:
+                    logger.warning(
+                        "Keeping symlink %s (cannot load its target)", job_path.parent
+                    )
+                    continue
                 job_path.parent.unlink()
                 logger.info("Removing symlink %s", job_path.parent)
 
